@@ -283,4 +283,14 @@ def r4_declaration(ctx):
             ctx.ob("R4", "BytesDecl::encoding", set(lit) == {b"encoding"}, "reads the `encoding` pseudo-attribute: %s" % sorted(set(lit), key=str), config=cfg)
 
 
-RULES = [("R1", r1_no_lossy), ("R2", r2_machine), ("R3", r3_bom), ("R4", r4_declaration)]
+def r5_sniff_is_not_skipped(ctx):
+    """The BOM is looked for in the first piece of input: the sniffing helpers (detect_encoding / remove_utf8_bom) must
+    actually get that piece, so an interrupted refill is retried like everywhere else (C18 R1 re-evaluated)."""
+    import c18
+    n0 = len(ctx.obs)
+    c18.r1_refill(ctx)
+    ctx.obs[n0:] = [o for o in ctx.obs[n0:] if "detect_encoding" in o["site"] or "remove_utf8_bom" in o["site"] or o["site"].startswith("floor:")]
+    for o in ctx.obs[n0:]:
+        o["rule"] = "R5"
+
+RULES = [("R1", r1_no_lossy), ("R2", r2_machine), ("R3", r3_bom), ("R4", r4_declaration), ("R5", r5_sniff_is_not_skipped)]
